@@ -46,7 +46,7 @@ NCHUNK = 48
 
 def bounds(tier):
     return {"tier": tier, "name_sets": sum(1 for k in range(0, 6) for _ in itertools.combinations(NAMES, k)),
-            "constructors": ["obj"] + sorted(OBJ_CLASSES) + ["array(dict)", "array(dtype)", "zip", "Array"],
+            "constructors": ["obj"] + sorted(OBJ_CLASSES) + ["array(dict)", "array(dtype)", "zip", "Array"] + ["the 20 from_<names> class methods on the 6 object classes"],
             "value_kinds": "int, float, numpy.float64, numpy.int32, numpy.float32 accepted verbatim; bool, None, str, complex, list, numpy.bool_ rejected (one position at a time, every accepted set)",
             "unknown_names": ["w", "pE"]}
 
@@ -329,8 +329,34 @@ def check_set(res: Result, names, tier, only=None):
                 res.violation(f"accepts_unknown|{cn}|unknown:{unk}", f"{cn}({', '.join(kw)}) accepted the unknown name {unk!r} and built {v!r}", dict(case, ctor=cn, unknown=unk))
 
 
+def check_from_methods(res: Result):
+    """the 20 explicit class constructors VectorObjectND.from_<names>(positional values), on generic and momentum classes"""
+    for cname, (cls, cdim, cflavor) in OBJ_CLASSES.items():
+        for system in L.SYSTEMS[cdim]:
+            names = L.field_names(system)
+            meth = "from_" + "".join(names)
+            vals = tuple(TAG[n] for n in names)
+            res.states += 1
+            res.transitions += 1
+            res.traces += 1
+            res.evaluations += 1
+            case = {"ctor": f"{cname}.{meth}", "names": list(names)}
+            try:
+                v = getattr(cls, meth)(*vals)
+            except Exception as e:  # noqa: BLE001
+                res.violation(f"from_raises|{cname}.{meth}", f"{cname}.{meth}{vals} raised {type(e).__name__}: {e}", case)
+                continue
+            got = _describe_obj(v)
+            if type(v) is not cls or got[1] != system or not all(_same(a, b) for a, b in zip(got[3], vals)):
+                res.violation(f"from_wrong|{cname}.{meth}", f"{cname}.{meth}{vals} built {v!r} ({type(v).__name__}, {got[1]}, {got[3]})", case)
+            else:
+                res.nontrivial += 1
+
+
 def run_shard(shard, tier):
     res = Result()
+    if shard["lo"] == 0:
+        check_from_methods(res)
     sets = all_sets()[shard["lo"] : shard["hi"]]
     for names in sets:
         check_set(res, names, tier)
